@@ -31,6 +31,7 @@ def main():
     patch = os.path.join(out, "patch.diff")
     demo = os.path.join(out, "demo.py")
     meta = json.load(open(os.path.join(out, "meta.json")))
+    meta = meta.get("agent_meta", meta)          # re-run from /verif/seeded/<id>/ itself
     scratch = tempfile.mkdtemp(prefix="seed-")
     rec = dict(seed=seed_id, property=prop, agent_meta=meta, confirmed={}, checks={})
     try:
@@ -65,8 +66,9 @@ def main():
         if os.path.exists(prev):
             old = json.load(open(prev))
             rec["history"] = old.get("history", []) + [dict(caught_by=old.get("caught_by"), checks=old.get("checks"), verif_commit=old.get("verif_commit"))]
-        shutil.copy(patch, os.path.join(dest, "patch.diff"))
-        shutil.copy(demo, os.path.join(dest, "demo.py"))
+        if os.path.abspath(out) != os.path.abspath(dest):
+            shutil.copy(patch, os.path.join(dest, "patch.diff"))
+            shutil.copy(demo, os.path.join(dest, "demo.py"))
         keep = rec["confirmed"]["patch_applies"] and rec["confirmed"]["tests_pass"] and d1.returncode == 1 and d0.returncode == 0
         rec["kept"] = keep
         rec["verif_commit"] = sh(["git", "-C", VERIF, "log", "--format=%h", "-1"]).stdout.strip()
